@@ -466,12 +466,12 @@ class Cfg:
 # ----------------------------------------------------------------------------
 # oracles: one handler per public method name
 def _sites(cfg, bad):
-    """classify the failing cells of a (markers x traits) result by the sign of the marker effect there"""
+    """classify the failing cells of a (markers x traits) result: all at zero-effect markers, all at non-zero-effect
+    markers, or both (part of the signature: the neutral-allele convention is its own root cause)"""
     kinds = set()
     for j, k in zip(*numpy.nonzero(bad)):
-        u = cfg.Ua[int(j)][int(k)]
-        kinds.add("zero-effect" if u == 0 else ("pos-effect" if u > 0 else "neg-effect"))
-    return "+".join(sorted(kinds))
+        kinds.add("zero-effect" if cfg.Ua[int(j)][int(k)] == 0 else "nonzero-effect")
+    return "mixed-effects" if len(kinds) > 1 else "".join(kinds)
 
 
 def _F(cfg, exp, shape=None):
